@@ -5,7 +5,7 @@
     the device was closed exactly once and that Close succeeded.  [fixed] = the repaired code. *)
 From Coq Require Import List Arith NArith Bool Permutation.
 From OBI.Common Require Import Reseq.
-From OBI.C18 Require Import Model Proofs.
+From OBI.C18 Require Import Model Proofs Layer LayerProofs.
 Import ListNotations.
 
 Theorem C18_fault_is_fatal_fastx : forall bsz l arr d0, Permutation arr (numbered l) -> fresh d0 ->
@@ -99,6 +99,89 @@ Theorem C18_orig_refuted_csv_close :
   exists l d0, fresh d0 /\ close_ok d0 = false /\ wo (csv_writer go_bufsize orig (numbered l) d0) = ExitOk.
 Proof. exact orig_refuted_csv_close. Qed.
 
+(** ================= round 2 *)
+
+(** FASTA / FASTQ: as for JSON, it is enough that Wfile.Close returns the error of Flush (and that Close is
+    checked, which WriteSeqFileChunk always did): whichever Write errors the loop looks at (drain_chk
+    arbitrary), a successful exit means every byte delivered — bufio's error is sticky *)
+Theorem C18_fastx_robust : forall bsz c l arr d0, flush_chk c = true -> Permutation arr (numbered l) -> fresh d0 ->
+  wo (fastx_writer bsz c arr d0) = ExitOk ->
+  got (wd (fastx_writer bsz c arr d0)) = concat l /\ closes (wd (fastx_writer bsz c arr d0)) = 1 /\ close_ok d0 = true.
+Proof. exact fastx_robust. Qed.
+Theorem C18_csv_robust : forall bsz c header rows arr d0, jc_close_chk c = true -> flush_chk c = true ->
+  Permutation arr (numbered (csv_chunks header rows)) -> fresh d0 ->
+  wo (csv_writer bsz c arr d0) = ExitOk ->
+  got (wd (csv_writer bsz c arr d0)) = concat (csv_chunks header rows) /\ closes (wd (csv_writer bsz c arr d0)) = 1 /\ close_ok d0 = true.
+Proof. exact csv_robust. Qed.
+
+(** COMPRESSED outputs (-Z): writer loop -> bufio -> compressor -> device.  The compressor is ANY state
+    machine [G, gwrite, gclose] that (i) acts on the device only by writing to it and (ii) obeys the
+    single law "an error of the device is returned by a later Write or by Close" ([owes]: ghost flag
+    "an error has been seen and not yet returned"; hypotheses GW / GC).  Then, for every chunk list,
+    arrival permutation, buffer size, loop fuel, choice of checked Write errors and EVERY device:
+    exit ok => the compressor was given exactly the expected bytes and was closed without error, NO
+    write to the device failed (all it emitted is in the device), the device was closed once and that
+    Close succeeded.  (That the emitted bytes decode to the input is the codec's business.) *)
+Definition gz_law (G : Type) (gwrite : G -> fdev -> list N -> G * fdev * nat * bool)
+                  (gclose : G -> fdev -> G * fdev * bool) (owes : G -> bool) : Prop :=
+  (forall g f p g' f' n e, gwrite g f p = (g', f', n, e) ->
+     (exists ps, f' = fdev_writes f ps) /\ (e = false -> zJ G owes (g, f, []) -> zJ G owes (g', f', []))) /\
+  (forall g f g' f' e, gclose g f = (g', f', e) ->
+     (exists ps, f' = fdev_writes f ps) /\ (e = false -> zJ G owes (g, f, []) -> ffailed f' = false)).
+
+Theorem C18_fault_is_fatal_fastx_gz : forall G gwrite gclose owes, gz_law G gwrite gclose owes ->
+  forall bsz fuel k1 k2 l arr z0, Permutation arr (numbered l) -> zfresh G z0 ->
+  go _ (g_fastx (zdev G) (z_write G gwrite) (z_close G gclose) bsz fuel k1 k2 arr z0) = ExitOk ->
+  zdelivered G (g_fastx (zdev G) (z_write G gwrite) (z_close G gclose) bsz fuel k1 k2 arr z0) (concat l).
+Proof. exact (fun G gw gc ow L => gz_fastx G gw gc ow (proj1 L) (proj2 L)). Qed.
+Theorem C18_fault_is_fatal_json_gz : forall G gwrite gclose owes, gz_law G gwrite gclose owes ->
+  forall bsz fuel k l arr z0, Permutation arr (numbered l) -> zfresh G z0 ->
+  go _ (g_json (zdev G) (z_write G gwrite) (z_close G gclose) bsz fuel k arr z0) = ExitOk ->
+  zdelivered G (g_json (zdev G) (z_write G gwrite) (z_close G gclose) bsz fuel k arr z0) (json_expected l).
+Proof. exact (fun G gw gc ow L => gz_json G gw gc ow (proj1 L) (proj2 L)). Qed.
+Theorem C18_fault_is_fatal_csv_gz : forall G gwrite gclose owes, gz_law G gwrite gclose owes ->
+  forall bsz fuel k header rows arr z0, Permutation arr (numbered (csv_chunks header rows)) -> zfresh G z0 ->
+  go _ (g_csv (zdev G) (z_write G gwrite) (z_close G gclose) bsz fuel k arr z0) = ExitOk ->
+  zdelivered G (g_csv (zdev G) (z_write G gwrite) (z_close G gclose) bsz fuel k arr z0) (concat (csv_chunks header rows)).
+Proof. exact (fun G gw gc ow L => gz_csv G gw gc ow (proj1 L) (proj2 L)). Qed.
+(** the law is satisfiable (a store-and-forward layer that returns a device error only from Close) *)
+Theorem C18_gz_law_satisfiable : gz_law bool lazy_gwrite lazy_gclose (fun g => g).
+Proof. exact (conj lazy_GW lazy_GC). Qed.
+
+(** OTHER DEVICE ERROR SHAPES ([sdev]): a write that stops short WITHOUT reporting an error (once, at any
+    absolute offset), an error on zero-length writes, on top of the budget / failing Close: same
+    conclusion for every shape, buffer size and loop fuel (OutOfFuel = the loop of bufio.Writer.Write never
+    returns: not a successful exit) *)
+Theorem C18_fault_is_fatal_fastx_shapes : forall bsz fuel k1 k2 l arr d0, Permutation arr (numbered l) -> sfresh d0 ->
+  go sdev (g_fastx sdev sdev_write sdev_close bsz fuel k1 k2 arr d0) = ExitOk ->
+  sdelivered (g_fastx sdev sdev_write sdev_close bsz fuel k1 k2 arr d0) (concat l).
+Proof. exact sdev_fastx. Qed.
+Theorem C18_fault_is_fatal_json_shapes : forall bsz fuel k l arr d0, Permutation arr (numbered l) -> sfresh d0 ->
+  go sdev (g_json sdev sdev_write sdev_close bsz fuel k arr d0) = ExitOk ->
+  sdelivered (g_json sdev sdev_write sdev_close bsz fuel k arr d0) (json_expected l).
+Proof. exact sdev_json. Qed.
+Theorem C18_fault_is_fatal_csv_shapes : forall bsz fuel k header rows arr d0,
+  Permutation arr (numbered (csv_chunks header rows)) -> sfresh d0 ->
+  go sdev (g_csv sdev sdev_write sdev_close bsz fuel k arr d0) = ExitOk ->
+  sdelivered (g_csv sdev sdev_write sdev_close bsz fuel k arr d0) (concat (csv_chunks header rows)).
+Proof. exact sdev_csv. Qed.
+
+(** what the shapes do (4096-byte buffer): a short write without error while bufio FLUSHES is turned
+    into io.ErrShortWrite, hence a fatal exit; the same short write on the DIRECT path (chunk larger than
+    the empty buffer) is simply retried: exit ok with every byte; zero-length writes never reach the
+    device, so a device failing them changes nothing; the lazy compressor on a device that fails after 3
+    bytes exits fatally, on a healthy device successfully *)
+Example C18_round2_nonvacuous :
+  let run l d := g_fastx sdev sdev_write sdev_close go_bufsize 16 true true (numbered l) d in
+  let dv cut zero := mksdev (mkdev None true [] 0) cut zero 0 in
+  go _ (run [[49; 10]%N; big 65] (dv (Some 1) false)) = ExitFatal /\
+  go _ (run [big 65] (dv (Some 100) false)) = ExitOk /\ length (got (sd (gd _ (run [big 65] (dv (Some 100) false))))) = N.to_nat 4200 /\
+  go _ (run [[49; 10]%N; []; [50]%N] (dv None true)) = ExitOk /\ zero_seen (gd _ (run [[49; 10]%N; []; [50]%N] (dv None true))) = 0 /\
+  let zrun k := g_fastx (zdev bool) (z_write bool lazy_gwrite) (z_close bool lazy_gclose) go_bufsize 4 true true
+                  (numbered [[49; 10]%N; [50; 51; 10]%N]) (false, mkfdev (mkdev k true [] 0) false, []) in
+  go _ (zrun (Some 3)) = ExitFatal /\ go _ (zrun None) = ExitOk /\ zfresh bool (false, mkfdev (mkdev None true [] 0) false, []).
+Proof. vm_compute. repeat split; reflexivity. Qed.
+
 (** hypotheses are satisfiable and the conclusion is not vacuous: a healthy device gives ExitOk with all
     bytes; a device failing after 4 bytes gives ExitFatal (non-identity arrival, 4096-byte buffer) *)
 Example C18_nonvacuous :
@@ -134,3 +217,12 @@ Print Assumptions C18_flush_error_dropped_refuted.
 Print Assumptions C18_orig_refuted_drained_chunk.
 Print Assumptions C18_orig_refuted_json.
 Print Assumptions C18_orig_refuted_csv_close.
+Print Assumptions C18_fastx_robust.
+Print Assumptions C18_csv_robust.
+Print Assumptions C18_fault_is_fatal_fastx_gz.
+Print Assumptions C18_fault_is_fatal_json_gz.
+Print Assumptions C18_fault_is_fatal_csv_gz.
+Print Assumptions C18_gz_law_satisfiable.
+Print Assumptions C18_fault_is_fatal_fastx_shapes.
+Print Assumptions C18_fault_is_fatal_json_shapes.
+Print Assumptions C18_fault_is_fatal_csv_shapes.
